@@ -61,17 +61,49 @@ def child(job, hashseed="0"):
     return json.loads(p.stdout)
 
 
+def process_globals(P):
+    """settings of the interpreter and of the library that are shared by every grammar in the process and can change what a
+    parse returns or raises: an import of a grammar module has no business changing them"""
+    import sys
+    g = {"sys.recursionlimit": sys.getrecursionlimit(), "sys.switchinterval": sys.getswitchinterval(),
+         "sys.int_max_str_digits": sys.get_int_max_str_digits() if hasattr(sys, "get_int_max_str_digits") else None}
+    skip = {"_obj_map", "objects", "epoch", "__dict__", "__weakref__", "__doc__", "__module__", "__annotations__", "__abstractmethods__",
+            "_abc_impl", "__parameters__", "__orig_bases__", "__slots__", "__qualname__", "__firstlineno__", "__static_attributes__"}
+    for cn in ("Rule", "ABNFGrammarRule", "Alternation", "Concatenation", "Repetition", "Repeat", "Option", "Literal", "ParseCache", "Node",
+               "LiteralNode", "NodeVisitor", "Match", "ParseError", "GrammarError"):
+        c = getattr(P, cn, None)
+        if c is None:
+            continue
+        for k, v in vars(c).items():
+            if k in skip or callable(v) or isinstance(v, (classmethod, staticmethod, property)):
+                continue
+            if " at 0x" not in repr(v):
+                g[f"{cn}.{k}"] = repr(v)[:200]
+    for k, v in vars(P).items():
+        if not k.startswith("__") and isinstance(v, (int, float, str, bytes, bool, tuple, frozenset, type(None))) and " at 0x" not in repr(v):
+            g["parser." + k] = repr(v)[:200]
+        elif not k.startswith("__") and isinstance(v, (dict, list, set)) and k.isupper():
+            g["parser." + k] = "%s of %d items, hash %d" % (type(v).__name__, len(v), hash(repr(sorted(map(repr, v.items() if isinstance(v, dict) else v)))) % 10**9)
+    return g
+
+
 # ------------------------------------------------------------------ child side (real library)
 def child_main(path):
     import importlib
     job = json.load(open(path))
     import abnf.parser as P
     import pyimpl
+    for t in job.get("prelude", []):
+        try:
+            P.Rule.create(t)      # application rules on the BASE class, defined before any grammar module is imported
+        except Exception:  # noqa: BLE001  (some prelude texts are refused on purpose: a refused compile must leave nothing behind)
+            pass
     for m in job.get("import", []):
         importlib.import_module("abnf.grammars." + m)
     out = {}
     if job.get("dump"):
         out["dump"] = reg_x.impl_dump([])
+        out["globals"] = process_globals(P)
     if job.get("gen"):
         # derive sentences from the library's own object graph for the rules of the given classes
         out["cases"] = gen_cases(P, job["gen"])
@@ -260,6 +292,7 @@ def orders(a):
     mods = modules()
     n = 10 if a.tier == "quick" else 120
     alone = {}
+    alone_globals = {}
 
     def dump_of(ms):
         return child({"import": ms, "dump": True})
@@ -276,6 +309,7 @@ def orders(a):
             viol.append({"what": f"import of {m} alone failed: " + d["__error__"][-200:], "identity": "import-error:" + m, "replay_payload": d})
         else:
             alone[m] = d["dump"]
+            alone_globals[m] = d.get("globals")
     jobs = []
     for _ in range(n):
         k = rng.randint(2, 6)
@@ -286,6 +320,17 @@ def orders(a):
     with ThreadPoolExecutor(max_workers=12) as ex:
         res = list(ex.map(lambda ms: (ms, dump_of(ms)), jobs))
     compared = 0
+    # process-global settings: a process that imported nothing but the parser is the reference
+    base_g = child({"import": [], "dump": True}).get("globals")
+    seen_g = set()
+    for ms, d in [([m], {"globals": gl}) for m, gl in alone_globals.items()] + [(ms, d) for ms, d in res if "__error__" not in d]:
+        for k in sorted(set(base_g or {}) | set(d.get("globals") or {})):
+            a_, b_ = (base_g or {}).get(k), (d.get("globals") or {}).get(k)
+            if base_g is not None and d.get("globals") is not None and a_ != b_ and k not in seen_g:
+                seen_g.add(k)
+                viol.append({"what": f"importing {ms} changes the process-wide setting {k}: {a_} -> {b_}",
+                             "identity": f"c14-global:{k}", "replay_payload": {"property": "C14", "import_order": ms, "setting": k,
+                                                                              "without_the_import": a_, "with_it": b_}})
     for ms, d in res:
         if "__error__" in d:
             viol.append({"what": f"import of {ms} failed: " + d["__error__"][-200:], "identity": "import-error", "replay_payload": d})
@@ -346,10 +391,50 @@ def c15(a):
             probes.append(["meta", "", n, s, 0, 2])
         for n in R5234:
             probes.append(["rfc5234", "Rule", n, s, 0, 2])
-    res = child({"import": ["rfc7405"], "probe": probes})
+    # single tokens longer than 4 096 characters (a quoted string, a prose-val, a rule name, a comment): the two definitions of
+    # ABNF must agree on them as well (too long for the model: the compiled rfc7405 rules against the hand-written reader only)
+    long_strings = ['"' + "a" * 4200 + '"', "<" + "p" * 4200 + ">", "r" + "a" * 4200, ";" + "c" * 4200 + "\r\n", '%s"' + "b" * 4200 + '"']
+    long_probes = []
+    for s in long_strings:
+        for n in ("char-val", "prose-val", "rulename", "comment", "element"):
+            long_probes.append(["rfc7405", "Rule", n, s, 0, 2])
+            long_probes.append(["meta", "", n, s, 0, 2])
+    res = child({"import": ["rfc7405"], "probe": probes + long_probes})
     if "__error__" in res:
         return {"coverage": {}, "violations": [{"what": "harness: " + res["__error__"][-300:], "identity": "harness-error", "replay_payload": res}]}
-    acc = dict(zip([tuple(p[:4]) for p in probes], [x.startswith("OK") for x in res["probe"]]))
+    acc = dict(zip([tuple(p[:4]) for p in probes + long_probes], [x.startswith("OK") for x in res["probe"]]))
+    # the same comparison in a process whose application had defined rules on the base class, named like rules that the ABNF
+    # grammars reference before defining them (element, option, comment, ...), BEFORE the grammar modules were imported
+    prelude = ['element = "zz"', 'option = "oo"', 'comment = "#c"', 'c-nl = "nl"', 'group = "gg"', 'repeat = "rr"', 'char-val = "cv"',
+               'zz9 = %x41.110000', 'zz8 = %d65.66.1114112', 'zz7 = %x41-110000', 'zz6 = "unterminated']
+    sub = [s_ for s_ in strings if len(s_) <= 30][:: max(1, len(strings) // 150)]
+    probes2 = []
+    for s in sub:
+        for n in META:
+            probes2.append(["rfc7405", "Rule", n, s, 0, 2])
+            probes2.append(["meta", "", n, s, 0, 2])
+    # ... and the rfc5234 module in that process against the rfc5234 module of the undisturbed process
+    probes3 = [["rfc5234", "Rule", n, s, 0, 2] for s in sub for n in R5234]
+    res2 = child({"prelude": prelude, "import": ["rfc7405"], "probe": probes2})
+    # (the base-class definitions above are left out here: a base-class rule named char-val is SHARED by rfc5234 and rfc7405 — the
+    # known finding of C10 — and would make the two modules differ for that reason)
+    res3 = child({"prelude": [t for t in prelude if t.startswith("zz")], "import": ["rfc7405"], "probe": probes3})
+    viol = []
+    if "__error__" in res2:
+        viol.append({"what": "importing rfc7405 after an application defined base-class rules named like ABNF rules failed: " + res2["__error__"][-300:],
+                     "identity": "c15:prelude-import", "replay_payload": {"property": "C15", "prelude": prelude, "error": res2["__error__"][-1500:]}})
+    else:
+        for p3, x3 in zip(probes3, res3.get("probe", [])):
+            if x3.startswith("OK") != acc[tuple(p3[:4])]:
+                viol.append({"what": f"after an application had compiles refused (value out of range, unterminated string): rfc5234.Rule({p3[2]!r}) {'accepts' if x3.startswith('OK') else 'rejects'} {p3[3]!r}, "
+                                     "unlike the same module in an undisturbed process",
+                             "identity": f"c15:prelude5234:{p3[2]}:{p3[3]!r}", "replay_payload": {"property": "C15", "prelude": prelude, "rule": p3[2], "source": p3[3]}})
+        it2 = iter(zip(probes2, res2["probe"]))
+        for (p1, x1), (p2, x2) in zip(it2, it2):
+            if x1.startswith("OK") != x2.startswith("OK"):
+                viol.append({"what": f"after an application defined base-class rules {prelude[:3]}...: rfc7405.Rule({p1[2]!r}) and the reader disagree on {p1[3]!r}",
+                             "identity": f"c15:prelude:{p1[2]}:{p1[3]!r}", "replay_payload": {"property": "C15", "prelude": prelude, "rule": p1[2], "source": p1[3],
+                                                                                              "rfc7405": x1[:80], "reader": x2[:80]}})
     # the RFC 5234 text grammar (original char-val) through the model
     lines = ["RRFC5234"]
     for s in strings:
@@ -357,9 +442,15 @@ def c15(a):
             lines.append(" ".join(["RPARSE", "2", "2"] + stoks(n) + ["0"] + stoks(s)))
     outs = run_driver(lines)[1:]
     k = 0
-    viol = []
     n_eval = 0
     n_acc = 0
+    for s in long_strings:
+        for n in ("char-val", "prose-val", "rulename", "comment", "element"):
+            n_eval += 1
+            x, y = acc[("rfc7405", "Rule", n, s)], acc[("meta", "", n, s)]
+            if x != y:
+                viol.append({"what": f"rfc7405.Rule({n!r}) {'accepts' if x else 'rejects'} a token of {len(s)} characters ({s[:12]!r}...) but the library's reader rule {'accepts' if y else 'rejects'} it",
+                             "identity": f"c15:7405-long:{n}:{s[:4]!r}", "replay_payload": {"property": "C15", "rule": n, "source_prefix": s[:20], "source_length": len(s), "rfc7405": x, "reader": y}})
     for s in strings:
         for n in META:
             n_eval += 1
